@@ -112,9 +112,17 @@ func DecodeAction(data []byte) (Action, error) {
 			a = DecodeNxAction(data)
 		}
 	}
+	if a == nil {
+		return nil, errors.New("unsupported action type or experimenter subtype")
+	}
 	err := a.UnmarshalBinary(data)
 	if err != nil {
 		return a, err
+	}
+	// Every list decoder steps to the next action by Len(); an action whose wire
+	// length makes that 0 would keep the loop on the same bytes forever.
+	if a.Len() == 0 {
+		return a, errors.New("action with zero length")
 	}
 	return a, nil
 }
